@@ -81,8 +81,11 @@ func sysH(s *simrt.Sim, t *simrt.Task, r *simrt.Req) simrt.Status {
 			errno = syscall.Errno(f.Errno)
 			fault = "errno"
 		case "short":
-			short = f.Short
-			fault = "short"
+			// only transfers can be short; on any other call the fault does not apply
+			if op == opRead || op == opPread || op == opWrite || op == opPwrite {
+				short = f.Short
+				fault = "short"
+			}
 		}
 	}
 	args := ""
